@@ -61,6 +61,7 @@ class Runner:
         )
         self.w.listing_perm = ws.get("listing")
         self.spelling = ws.get("spelling", "abs")
+        self.sfspell = ws.get("sfspell", "abs")
         self.pj = PJ.Projector(self.w)
         for cid in ws.get("contents", ["c1", "c2", "c3", "EMPTY"]):
             self.w.bytes_of(cid)
@@ -110,6 +111,29 @@ class Runner:
             return "./" + os.path.basename(p), parent
         return p, None
 
+    def sf_arg(self, apath, R, cwd, relative_to_root=False):
+        """spelling of a -sf argument -> (argument, cwd).  All spellings denote the same file:
+        abs: clean absolute path;  dotseg: ROOT/./rel;  dslash: dir//name;  updown: dir/../dir/name;
+        rel: relative ('./rel' against the working directory for create and info, 'rel' against the root for verify)"""
+        w = self.w
+        p = w.cpath(tuple(apath))
+        root = w.cpath(tuple(R)) if R is not None else os.path.dirname(p)
+        rel = os.path.relpath(p, root)
+        mode = self.sfspell
+        if mode == "dotseg" and rel != ".":
+            return root + "/./" + rel, cwd
+        if mode == "dslash":
+            return os.path.dirname(p) + "//" + os.path.basename(p), cwd
+        if mode == "updown":
+            d = os.path.dirname(p)
+            return d + "/../" + os.path.basename(d) + "/" + os.path.basename(p), cwd
+        if mode == "rel" and rel != ".":
+            if relative_to_root:
+                return rel, cwd
+            base = cwd or root
+            return "./" + os.path.relpath(p, base), base
+        return p, cwd
+
     def build(self, op):
         """-> (click command, args, cwd)"""
         w = self.w
@@ -148,12 +172,17 @@ class Runner:
             if self.spec["world"].get("sfrev"):
                 targets.reverse()
             for s in targets:
-                args += ["-sf", w.cpath(tuple(s))]
-            if op.get("dup"):   # the same files named again, directly and through their folders
-                for s in op["S"]:
-                    args += ["-sf", w.cpath(tuple(s))]
+                a, cwd = self.sf_arg(s, op["R"], cwd)
+                args += ["-sf", a]
+            if op.get("dup"):   # the same files named again, directly and through their folders, in other spellings
+                root = w.cpath(tuple(op["R"]))
+                for n, s in enumerate(op["S"]):
+                    p = w.cpath(tuple(s))
+                    alt = [p, root + "/./" + os.path.relpath(p, root), os.path.dirname(p) + "//" + os.path.basename(p)][(n + len(op["S"])) % 3]
+                    args += ["-sf", alt]
                     if len(s) > 1:
-                        args += ["-sf", w.cpath(tuple(s[:-1]))]
+                        d = w.cpath(tuple(s[:-1]))
+                        args += ["-sf", [d, os.path.dirname(d) + "/./" + os.path.basename(d), d + "/"][(n + len(s)) % 3]]
             return C.create, args, cwd
         if k == "verify":
             args = [rootarg]
@@ -162,7 +191,8 @@ class Runner:
             args += self.pattern_file_args(op)
             return C.verify, args, cwd
         if k == "verifysf":
-            return C.verify, [rootarg, "-sf", w.cpath(tuple(op["S"]))], cwd
+            a, cwd = self.sf_arg(op["S"], op["R"], cwd, relative_to_root=True)
+            return C.verify, [rootarg, "-sf", a], cwd
         if k == "verifydh":
             args = [rootarg, "-dh"]
             if op.get("co"):
@@ -190,7 +220,8 @@ class Runner:
         if k == "info":
             return C.info, [rootarg], cwd
         if k == "infosf":
-            args = ["-sf", w.cpath(tuple(op["S"]))]
+            a, cwd = self.sf_arg(op["S"], None if (op.get("R") is None or list(op["R"]) == ["-"]) else op["R"], cwd)
+            args = ["-sf", a]
             if op.get("R") is not None and list(op["R"]) != ["-"]:
                 args.append(w.cpath(tuple(op["R"])))
             return C.info, args, cwd
@@ -503,6 +534,8 @@ class Runner:
                 bad.append(rel)
         ndirs = 1 + sum(1 for p, meta in snap.items() if meta[0] == "d" and p.startswith(Rabs + os.sep) and "ascmhl" not in p.split(os.sep)
                         and not spec.match_file(os.path.relpath(p, Rabs).replace(os.sep, "/")))
+        if op.get("ro"):
+            ndirs = 1  # -ro prints the root hash only
         return {"printed": printed, "good": good, "bad": bad, "ndirs": ndirs}
 
     def parse_info(self, out, op):
